@@ -136,7 +136,7 @@ def attributes_definition(feature_model: FeatureModel) -> str:
     if attributes:
         result = f'abstract {ATTRIBUTED_FEATURE}\n'
         for name, v_type in attributes.items():
-            result += f'\t{name} -> {v_type}\n'
+            result += f'\t{safename(name)} -> {v_type}\n'
     return result
 
 
